@@ -123,7 +123,7 @@ pub fn lib_out_process(list: &[String], cfg: &Cfg, self_exe: &str, tmp: &str, ta
 
 #[derive(Clone, Debug)]
 pub enum Op {
-    New { o: usize, set: usize, list: Vec<String> },
+    New { o: usize, set: usize, list: Vec<String>, from_file: bool },
     Set { o: usize, name: String, arg: i64 },
     Clone { o: usize, ret: usize },
     Build { o: usize },
@@ -160,7 +160,8 @@ pub fn random_history(rng: &mut StdRng, max_ops: usize, allow_errors: bool) -> (
                     list.clear();
                 }
                 let empty = list.is_empty();
-                ops.push(Op::New { o: next_obj, set: set + 1, list });
+                let from_file = !list.is_empty() && rng.gen_bool(0.25) && list.iter().all(|t| !t.contains('\n') && !t.contains('\r'));
+                ops.push(Op::New { o: next_obj, set: set + 1, list, from_file });
                 if !empty {
                     live.push(next_obj);
                 }
@@ -208,8 +209,8 @@ pub fn random_history(rng: &mut StdRng, max_ops: usize, allow_errors: bool) -> (
 pub fn structured_history(rng: &mut StdRng) -> (Vec<Vec<String>>, Vec<Op>) {
     let mixed = ["Bxx", "ayy", "Abc", "aBc", "abC", "ZZ", "zy", "Ka", "kA", "b", "B", "\u{130}x", "i\u{307}x", "\u{212A}", "k"];
     let repeats = ["aaa", "aaaa", "abab", "ababab", "aaaab", "xyxyxy", "1111", "11a11a", "aabb", "abcabc", "zzzzz"];
-    let family = rng.gen_range(0..4);
-    let pool: &[&str] = if family == 0 || (family == 3 && rng.gen_bool(0.5)) { &mixed } else { &repeats };
+    let family = rng.gen_range(0..5);
+    let pool: &[&str] = if family == 0 || family == 4 || (family == 3 && rng.gen_bool(0.5)) { &mixed } else { &repeats };
     let mut list: Vec<String> = vec![];
     for _ in 0..rng.gen_range(2..=4) {
         list.push(pool[rng.gen_range(0..pool.len())].to_string());
@@ -218,7 +219,8 @@ pub fn structured_history(rng: &mut StdRng) -> (Vec<Vec<String>>, Vec<Op>) {
     list.dedup();
     let set = list.clone();
     list.shuffle(rng);
-    let mut ops = vec![Op::New { o: 1, set: 1, list }];
+    let from_file = rng.gen_bool(0.3);
+    let mut ops = vec![Op::New { o: 1, set: 1, list, from_file }];
     let set_op = |name: &str, arg: i64| Op::Set { o: 1, name: name.to_string(), arg };
     match family {
         0 => {
@@ -252,6 +254,14 @@ pub fn structured_history(rng: &mut StdRng) -> (Vec<Vec<String>>, Vec<Op>) {
             ops.push(set_op(["digit", "word", "icase", "escape"][rng.gen_range(0..4)], 0));
             ops.push(Op::Build { o: 1 });
         }
+        4 => {
+            // a setting that changes the normalisation arrives AFTER a first build
+            ops.push(Op::Build { o: 1 });
+            ops.push(set_op("icase", 0));
+            ops.push(Op::Build { o: 1 });
+            ops.push(Op::Clone { o: 1, ret: 2 });
+            ops.push(Op::Build { o: 2 });
+        }
         _ => {
             // clones are independent in both directions
             ops.push(set_op(["rep", "icase", "digit", "noend"][rng.gen_range(0..4)], 0));
@@ -283,8 +293,22 @@ pub fn run_rust_history_ref(h: usize, sets: &[Vec<String>], ops: &[Op], proc_ref
     let mut idx = vec![];
     for op in ops {
         match op {
-            Op::New { o, set, list } => {
-                let r = catch_unwind(AssertUnwindSafe(|| RegExpBuilder::from(list)));
+            Op::New { o, set, list, from_file } => {
+                let r = catch_unwind(AssertUnwindSafe(|| {
+                    if *from_file {
+                        // the library's second constructor: one test case per line of a file
+                        let dir = std::env::var("GV_TMP").map(std::path::PathBuf::from).unwrap_or_else(|_| std::env::temp_dir());
+                        let path = dir.join(format!("gv_from_file_{}_{}_{}.txt", std::process::id(), h, o));
+                        let mut content = list.join("\n");
+                        content.push('\n');
+                        std::fs::write(&path, content).expect("write scratch file");
+                        let b = RegExpBuilder::from_file(&path);
+                        let _ = std::fs::remove_file(&path);
+                        b
+                    } else {
+                        RegExpBuilder::from(list)
+                    }
+                }));
                 match r {
                     Ok(b) => {
                         objs.insert(*o, b);
@@ -296,7 +320,7 @@ pub fn run_rust_history_ref(h: usize, sets: &[Vec<String>], ops: &[Op], proc_ref
                                           "msg": panic_message(e)}));
                     }
                 }
-                idx.push(json!({"op": "new", "o": o, "list": list}));
+                idx.push(json!({"op": "new", "o": o, "list": list, "from_file": from_file}));
             }
             Op::Set { o, name, arg } => {
                 let b = objs.get_mut(o).unwrap();
